@@ -31,3 +31,5 @@ f'{x:{"a"}}'; f"{x:{'a'}}"; f'{x:{y!r}}'
 f'{x!r:^{width}}|{y!s:<{w2}}|{z!a:>{w3}.{p3}}'
 f'{a}{b}{c}{d}{e}{f}{g}{h}'
 f'{lambda_}'; f'{x if y else z!r:>5}'
+f'{x:=10}'; f'{x:=^10}'; f'{x!r:=>{w}}'; f'{x=:=+8}'; f'{x:=}'; f'{x:==10}'; f'{x:!=5}'; f'{x:<=5}'; f'{x:>=5}'; f'{(y:=1):=4}'; f'{x :=5}'
+f'{x:!<5}'; f'{x:=<5}'; f'{x!s:!>5}'; f'{x=!r:=^9}'; f'{x: =5}'; f'{x::=5}'
